@@ -337,6 +337,7 @@ sha1_opt_x1:
 	mov     [rsp + _GPR_SAVE + 8*8], rdx
 
 
+	mov	r15, NBLK	; blocks left (r15 is saved above): decides when the loop ends
 	shl	NBLK, 6		; transform blk amount into bytes
 	jz	.lend
 	; detach idx from nlanx4
@@ -375,8 +376,8 @@ sha1_opt_x1:
   %xdefine F F1
 
 .lloop:
-        cmp BUFFER_PTR, K_BASE          ;; we use K_BASE value as a signal of a last block,
-        jne .lbegin                    ;; it is set below by: cmovae BUFFER_PTR, K_BASE
+        test r15, r15                   ;; all blocks done? (not "BUFFER_PTR == K_BASE": the caller's data
+        jnz .lbegin                    ;; may itself lie at the address of the constant table)
         jmp .lend
 
 .lbegin:
@@ -424,7 +425,8 @@ sha1_opt_x1:
 
         add   BUFFER_PTR, 64            ;; move to next 64-byte block
         cmp   BUFFER_PTR, BUFFER_END    ;; check if current block is the last one
-        cmovae BUFFER_PTR, K_BASE       ;; smart way to signal the last iteration
+        cmovae BUFFER_PTR, K_BASE       ;; after the last block the look-ahead reads the constant table instead
+        dec   r15
 
         RR A,B,C,D,E,60
         RR D,E,A,B,C,62
